@@ -274,6 +274,9 @@ def run(tier: str) -> Report:
         digests.add(json.dumps(r['trace'], sort_keys=True))
         if len(rep.samples) < 2:
             rep.samples.append({'case_id': r['case_id'], 'ops': r['trace'][:14]})
+    from .. import bigstore  # pylint: disable=import-outside-toplevel
+
+    rep.failures += bigstore.failures_for('C08', 6 if tier == 'quick' else 90, rep)
     rep.distinct_nontrivial = len(digests)
     rep.rule = ('sequential histories over 2-3 real handles on one folder: add loose through any handle, pack (any mode, with/without per-pack '
                 'cleaning) and clean through handle 0, has/get/meta/list/bulk queries through any handle (which pin index snapshots); '
@@ -284,6 +287,11 @@ def run(tier: str) -> Report:
 
 
 def replay(path: str) -> int:
+    from .. import bigstore  # pylint: disable=import-outside-toplevel
+
+    r_big = bigstore.replay_big('C08', path)
+    if r_big is not None:
+        return r_big
     doc = json.loads(open(path).read())
     rp = doc.get('replay') or {}
     if rp.get('kind') != 'multi':
